@@ -54,6 +54,7 @@ type X struct {
 	outcome  string
 	fails    []Fail
 	evals    int64
+	sums     map[string]int64
 	w        *worker
 	frontier int // >0: abort when a choice beyond this depth is requested
 	devLeft  int
@@ -126,6 +127,16 @@ func (x *X) Outcome(class string) { x.mu.Lock(); x.outcome = class; x.mu.Unlock(
 
 // Count adds to the number of evaluations performed by this execution (default: 1 per execution).
 func (x *X) Count(n int64) { x.mu.Lock(); x.evals += n; x.mu.Unlock() }
+
+// Add accumulates a named counter that is summed over all executions and written into the coverage object.
+func (x *X) Add(name string, n int64) {
+	x.mu.Lock()
+	if x.sums == nil {
+		x.sums = map[string]int64{}
+	}
+	x.sums[name] += n
+	x.mu.Unlock()
+}
 
 // Distinct registers a non-trivial (scenario class, outcome) pair.
 func (x *X) Distinct(key string) {
@@ -216,17 +227,18 @@ type failRec struct {
 }
 
 type shardResult struct {
-	Prefix   []int          `json:"prefix"`
-	Execs    int64          `json:"execs"`
-	Evals    int64          `json:"evals"`
-	Outcomes map[string]int `json:"outcomes"`
-	Fails    []failRec      `json:"fails,omitempty"`
-	Sample   *sample        `json:"sample,omitempty"`
-	MaxDepth int            `json:"max_depth"`
-	Nondet   string         `json:"nondet,omitempty"`
-	Cut      bool           `json:"cut,omitempty"`
-	Final    bool           `json:"final,omitempty"`
-	Distinct string         `json:"distinct,omitempty"` // hex, 16 chars per hash
+	Prefix   []int            `json:"prefix"`
+	Execs    int64            `json:"execs"`
+	Evals    int64            `json:"evals"`
+	Outcomes map[string]int   `json:"outcomes"`
+	Sums     map[string]int64 `json:"sums,omitempty"`
+	Fails    []failRec        `json:"fails,omitempty"`
+	Sample   *sample          `json:"sample,omitempty"`
+	MaxDepth int              `json:"max_depth"`
+	Nondet   string           `json:"nondet,omitempty"`
+	Cut      bool             `json:"cut,omitempty"`
+	Final    bool             `json:"final,omitempty"`
+	Distinct string           `json:"distinct,omitempty"` // hex, 16 chars per hash
 }
 
 func (s *Spec) runOnce(w *worker, prefix []int, frontier int) (x *X, status string) {
@@ -298,6 +310,12 @@ func (s *Spec) exploreSubtree(w *worker, prefix []int, deadline time.Time) shard
 			res.Evals += x.evals
 		}
 		res.Outcomes[x.outcome]++
+		for k, v := range x.sums {
+			if res.Sums == nil {
+				res.Sums = map[string]int64{}
+			}
+			res.Sums[k] += v
+		}
 		if len(x.Choices) > res.MaxDepth {
 			res.MaxDepth = len(x.Choices)
 		}
@@ -589,6 +607,7 @@ func (s *Spec) Coordinate() int {
 
 	var execs, evals int64
 	outcomes := map[string]int{}
+	sums := map[string]int64{}
 	distinct := map[string]struct{}{}
 	var fails []failRec
 	var samples []*sample
@@ -606,6 +625,9 @@ func (s *Spec) Coordinate() int {
 		evals += r.Evals
 		for k, v := range r.Outcomes {
 			outcomes[k] += v
+		}
+		for k, v := range r.Sums {
+			sums[k] += v
 		}
 		fails = append(fails, r.Fails...)
 		if r.Sample != nil {
@@ -713,6 +735,9 @@ func (s *Spec) Coordinate() int {
 		"subtrees":            len(prefixes),
 		"known_findings_seen": knownCount,
 		"unstable":            unstable,
+	}
+	for k, v := range sums {
+		cov[k] = v
 	}
 	if s.Extra != nil {
 		s.Extra(cov)
